@@ -31,7 +31,7 @@ Section Electre.
 
   (** ** per-criterion concordance / discordance: calculateElectreResult *)
   Definition electre_pair (c1 c2 : num) (c : crit) (ths : ecrit) : num * num :=
-    if nltb c2 c1 then (none, nzero) else
+    if nleb c2 c1 then (none, nzero) else   (* not worse => fully concordant; the pinned tree had [>] (defect D3) *)
     let orig := sgn c c1 in
     let d := nsub c2 c1 in
     let '(q, qok) := lf_eval (ec_q ths) orig in
